@@ -242,9 +242,13 @@ pub fn menu(seed: u64) -> Vec<(String, RepoSpec)> {
         c.nsign = 2;
         let mut d = role("D", Some(3), glob(&["a/c/d*"]));
         d.targets = vec![];
+        // a third sibling whose name sorts BEFORE its elder siblings: the order of `delegations.roles` is the priority order of the lookup and
+        // must survive an update as it is (not sorted, not keyed by name)
+        let mut e = role("@ listed last, sorts first", Some(0), glob(&["e/*", "a/f1*"]));
+        e.targets = vec![tgt("e/x", b"eee")];
         let mut top2 = top.clone();
         top2.targets.truncate(1);
-        out.push((format!("tree/consistent={consistent}"), RepoSpec { consistent, roles: vec![top2, a, b, c, d], snapshot_extra: vec![x("x-snapshot-extra"), x("another")], timestamp_extra: vec![x("x-timestamp-extra")], root_version: 1, snapshot_version: 2, timestamp_version: 2 }));
+        out.push((format!("tree/consistent={consistent}"), RepoSpec { consistent, roles: vec![top2, a, b, c, d, e], snapshot_extra: vec![x("x-snapshot-extra"), x("another")], timestamp_extra: vec![x("x-timestamp-extra")], root_version: 1, snapshot_version: 2, timestamp_version: 2 }));
         // no extras at all, empty targets
         out.push((format!("bare/consistent={consistent}"), RepoSpec { consistent, roles: vec![role("targets", None, None)], snapshot_extra: vec![], timestamp_extra: vec![], root_version: 1, snapshot_version: 1, timestamp_version: 1 }));
     }
